@@ -278,10 +278,13 @@ def build_evidence(prop, tier, seed, recs, results, undecided, violations, known
     assumed = []
     for u, ts in units:
         assumed += u.get('assumed', [])
+    known_set = set((r['task'], o['name']) for r, o, k in known_hits)
     for r in results:
         b = bool(r.get('bounded'))
         n = d = 0
         for o in r['obligations']:
+            if (r['task'], o['name']) in known_set:
+                continue   # a listed known finding: reported under known_findings_hit, counted neither as obligation nor as discharged
             if o['canary']:
                 canaries['expected_fail'] += 1
                 canaries['fired'] += 1 if o['status'] == 'FAILURE' else 0
